@@ -1223,6 +1223,20 @@ class StmtMixin(object):
         zi = self.as_int(v) if v.kind == "int" else self.u.i(v.z)
         return st, self.mk_bool(zi < old[0].alloc)
 
+    def spec_old_lists_unchanged(self, node, st, acc):
+        """old_lists_unchanged(): every list object that existed when the function was entered has the length and the
+        elements it had then (a frame statement usable as loop invariant when the loop only edits new lists)."""
+        u = self.u
+        es = self.entry_state
+        r = u.fresh_int("r")
+        k = u.fresh_int("k")
+        ln, at = self.heap_array(st, "$len"), self.heap_array(st, "$at")
+        ln0, at0 = self.heap_array(es, "$len"), self.heap_array(es, "$at")
+        a0 = z3.Int("alloc0")
+        body = z3.Implies(z3.And(r > 0, r < a0), z3.And(ln[r] == ln0[r], at[r] == at0[r]))
+        f = _forall_pat([r], body, ln[r], at[r], ln0[r])
+        return st, self.mk_bool(f)
+
     def spec_preexisting(self, node, st, acc):
         """preexisting(x): x is an object that was allocated before the function under verification was entered."""
         st, v = self.eval(node.args[0], st, acc)
